@@ -10,10 +10,10 @@ demo_cmd=$(python3 - "$D" <<'PY'
 import json,sys,os
 d=sys.argv[1]
 demo=json.load(open(os.path.join(d,'meta.json'))).get('demo','')
-if os.path.exists(os.path.join(d,'demo.sh')):
+if os.path.exists(os.path.join(d,'demo.diff')) and 'cargo test' in demo:
+    print(demo[demo.index('cargo test'):].split('&&')[0].split('   ')[0].strip())
+elif os.path.exists(os.path.join(d,'demo.sh')):
     print('bash ./demo.sh')
-elif 'cargo test' in demo:
-    print(demo[demo.index('cargo test'):].split('&&')[0].strip())
 else:
     print(demo)
 PY
